@@ -124,7 +124,7 @@ BlockOpts == { [kind |-> k, pre |-> p] : k \in CaseKinds, p \in CasePre }
 BlockSeqs == UNION { [1..n -> BlockOpts] : n \in 1..CaseN }
 CrashSeqs(n) == UNION { [1..k -> 1..(3 * n)] : k \in 0..CaseCrashes }
 CaseSet == UNION { { [blocks |-> bs, uc |-> u, ooo |-> o, crashes |-> cr] : u \in BOOLEAN, o \in BOOLEAN, cr \in CrashSeqs(Len(bs)) } : bs \in BlockSeqs }
-(* second and later crash points only early in the run (keeps the case count in budget) *)
-CaseOK(c) == \A k \in DOMAIN c.crashes : k = 1 \/ c.crashes[k] <= 3
+(* a second crash point only for one-block cases, and early in the run (keeps the case count in budget) *)
+CaseOK(c) == \A k \in DOMAIN c.crashes : k = 1 \/ (c.crashes[k] <= 3 /\ Len(c.blocks) = 1)
 ASSUME ndJsonSerialize(CasesFile, SetToSeq({ c \in CaseSet : CaseOK(c) }))
 =============================================================================
